@@ -258,7 +258,24 @@ func decide(chk *rules.Check, cfg config, overlay map[string][]byte) (res *repor
 		sort.Strings(log)
 		return res2, fmt.Sprintf("decided on the helper-inlined normal form (%d call(s) inlined: %s)", len(log), strings.Join(uniq(log), "; ")), nil
 	}
+	// neither form is clean. The alarm is raised either way; for the diagnosis prefer the form that NAMES a violated
+	// obligation over one that only lost its anchors (role unresolved, floor missed, obligation undecided)
+	if res2 != nil && namedViolations(res2, open) > 0 && namedViolations(res, open) == 0 {
+		sort.Strings(log)
+		return res2, fmt.Sprintf("not established as written (%s); violation named on the helper-inlined normal form (%d call(s) inlined)", strings.Join(res.Errors, "; "), len(log)), nil
+	}
 	return res, "", nil
+}
+
+// namedViolations counts the violated obligations of r that are not listed as open findings.
+func namedViolations(r *report.Result, open map[string]bool) int {
+	n := 0
+	for _, o := range r.Obligations {
+		if o.Status == report.Violated && !open[o.Key] {
+			n++
+		}
+	}
+	return n
 }
 
 var (
